@@ -389,6 +389,11 @@ def gatehouse_dates():
 
 def specials():
     good = line([b'!AIVDM', b'1', b'1', b'', b'B', P1, b'0'])
+    # lengths far from the small cases: a thousand stacked tag blocks, a thousand backslashes, a very long field list
+    for k in (3, 50, 998, 1200, 3000):
+        yield 'stacked-tag-blocks', b'\\x\\' * k + good
+        yield 'stacked-tag-blocks', b'\\' * k + good
+        yield 'many-fields', b'!AIVDM' + b',1' * k + b'*00'
     for s in (b'', b' ', b'\r\n', b'\t \x0b\x0c', b'\n', b'!', b'$', b',', b'*', b'AAA', b'$AAA', b'?!?!', b'$AIVDM,', b'!AIVDM',
               b'!AIVDM,1,1,,A,,0*00', b'!AIVDM,1,1,,A,,0', b'1234567890', b'A' * 82, b'$ANABK,,B,8,5,3*17',
               b',1,1,,A,403Ovl@000Htt<tSF0l4Q@100`Pq,0*28', b'!*xVDM,1,1,,A,15M67FC000G?ufbE`FepT@3n00Sa,0*5B',
